@@ -217,15 +217,19 @@ Proof.
 Qed.
 
 (** ---- blocks and time series ----------------------------------------------------------------------------- *)
-Lemma block_pad_samples_hdr : forall h n, h_nsamples (hdr_block_pad_samples h n) = n /\ h_nchans (hdr_block_pad_samples h n) = h_nchans h.
-Proof. intros. unfold hdr_block_pad_samples, upd_block_pad_samples. hdr_eval. split; reflexivity. Qed.
+Lemma block_pad_samples_hdr : forall h n off, let h' := hdr_block_pad_samples h n off in
+  h_nsamples h' = n /\ h_nchans h' = h_nchans h /\ advanced h h' (- off) /\ (h_tsamp h' == h_tsamp h)%Q.
+Proof. intros. unfold h', hdr_block_pad_samples, upd_block_pad_samples. hdr_eval. repeat split; try reflexivity. Qed.
 
-Lemma block_downsample_hdr : forall h ff tf, let h' := hdr_block_downsample h ff tf in
+Lemma block_new_like_dm : forall d, (cdm_block_new_like d == d)%Q.
+Proof. intro d. reflexivity. Qed.
+
+Lemma block_downsample_hdr : forall h ff tf d, let h' := hdr_block_downsample h ff tf d in
   decimated h h' tf /\ h_nsamples h' = h_nsamples h / tf /\ h_nchans h' = h_nchans h / ff /\ sums_channels h h' ff /\
-  (h_tstart h' == h_tstart h)%Q.
+  (h_tstart h' == h_tstart h)%Q /\ (cdm_block_downsample h ff tf d == d)%Q.
 Proof.
-  intros. subst h'. split; [| split; [| split; [| split]]]; try apply grid_start_within;
-  unfold hdr_block_downsample, upd_block_downsample; hdr_eval; reflexivity.
+  intros. subst h'. split; [| split; [| split; [| split; [| split]]]]; try apply grid_start_within;
+  unfold hdr_block_downsample, upd_block_downsample, cdm_block_downsample; hdr_eval; reflexivity.
 Qed.
 
 Lemma block_get_tim_hdr : forall h blk_dm, let h' := hdr_block_get_tim h blk_dm in
